@@ -283,18 +283,28 @@ var _ rpc.Resources
 // The verdict is stored only if it is an actual result or a plain denial (other errors are
 // not cached), the in-flight flag is cleared, and every waiting callback is invoked exactly once.
 //@ closure (*Subscription).loadAccess#3
-//@   requires s != nil && access != nil && (access.Error != nil || access.AccessResult != nil)
-//@   ensures[C07] old(s.state) != stateDisposed ==> invoked() == old(invoked()) + old(len(s.accessCallbacks))
+//@   requires s != nil && s.c != nil && predConnOK(s.c.(*wsConn)) && access != nil && (access.Error != nil || access.AccessResult != nil)
+//@   ensures[C07] old(s.state) != stateDisposed && old(s.flags & flagAccessStale) == 0 ==> invoked() == old(invoked()) + old(len(s.accessCallbacks))
 //@   ensures[C07] old(s.state) == stateDisposed ==> invoked() == old(invoked())
+// (an answer requested before a re-access trigger is discarded: nothing is stored, nobody is
+// told, and access is requested again for every waiting callback)
+//@   ensures[C05,C06,C07] old(s.state) != stateDisposed && old(s.flags & flagAccessStale) != 0 ==> invoked() == old(invoked()) &&
+//@       callcount("retryStaleAccess") == old(callcount("retryStaleAccess")) + 1
+//@   assert[C05,C06] s.retryStaleAccess#1: s.flags & flagAccessCalled == 0 && s.access == old(s.access) && len(arg0) == old(len(s.accessCallbacks))
 //@   safety[C15]
 //@   loop 1 invariant invoked() == old(invoked()) + rangeidx1 && len(cbs) == old(len(s.accessCallbacks))
 //@   loop 1 invariant[C04,C06,C07,C19] rangeidx1 == 0 ==> s.accessCallbacks == nil && s.flags & flagAccessCalled == 0 &&
 //@       (access.Error == nil || access.Error.Code == "system.accessDenied" ==> s.access == access) &&
 //@       (!(access.Error == nil || access.Error.Code == "system.accessDenied") ==> s.access == old(s.access))
 //@ closure (*Subscription).loadAccess#5
-//@   requires s != nil && access != nil && (access.Error != nil || access.AccessResult != nil)
-//@   ensures[C07] old(s.state) != stateDisposed ==> invoked() == old(invoked()) + old(len(s.accessCallbacks))
+//@   requires s != nil && s.c != nil && predConnOK(s.c.(*wsConn)) && access != nil && (access.Error != nil || access.AccessResult != nil)
+//@   ensures[C07] old(s.state) != stateDisposed && old(s.flags & flagAccessStale) == 0 ==> invoked() == old(invoked()) + old(len(s.accessCallbacks))
 //@   ensures[C07] old(s.state) == stateDisposed ==> invoked() == old(invoked())
+// (an answer requested before a re-access trigger is discarded: nothing is stored, nobody is
+// told, and access is requested again for every waiting callback)
+//@   ensures[C05,C06,C07] old(s.state) != stateDisposed && old(s.flags & flagAccessStale) != 0 ==> invoked() == old(invoked()) &&
+//@       callcount("retryStaleAccess") == old(callcount("retryStaleAccess")) + 1
+//@   assert[C05,C06] s.retryStaleAccess#2: s.flags & flagAccessCalled == 0 && s.access == old(s.access) && len(arg0) == old(len(s.accessCallbacks))
 //@   safety[C15]
 //@   loop 1 invariant invoked() == old(invoked()) + rangeidx1 && len(cbs) == old(len(s.accessCallbacks))
 //@   loop 1 invariant[C04,C06,C07] rangeidx1 == 0 ==> s.accessCallbacks == nil && s.flags & flagAccessCalled == 0 &&
@@ -929,6 +939,19 @@ var _ rpc.Resources
 //@   loop 1 assume rcb != nil && rcb.refMap != nil
 //@   safety[C15]
 
+// retryStaleAccess: without the stale mark nothing happens; with it the mark is cleared, the
+// waiting list is emptied and every waiting callback is handed to a new access request.
+//@ func (*Subscription).retryStaleAccess
+//@   requires s != nil && s.c != nil && predConnOK(s.c.(*wsConn))
+//@   ensures[C05,C06] old(s.flags & flagAccessStale) == 0 ==> !result && s.flags == old(s.flags) && s.accessCallbacks == old(s.accessCallbacks) &&
+//@       s.access == old(s.access) && callcount("loadAccess") == old(callcount("loadAccess")) && invoked() == old(invoked())
+//@   ensures[C05,C06,C07] old(s.flags & flagAccessStale) != 0 ==> result && callcount("loadAccess") == old(callcount("loadAccess")) + len(cbs)
+//@   assert[C05,C06] s.loadAccess#1: arg1 == nil && (rangeidx1 == 0 ==> arg0 == cbs[0] && s.flags & flagAccessStale == 0)
+//@   safety[C15]
+//@   loop 1 assume s.c != nil && predConnOK(s.c.(*wsConn))
+//@   loop 1 invariant callcount("loadAccess") == old(callcount("loadAccess")) + rangeidx1
+//@   loop 1 invariant rangeidx1 == 0 ==> s.flags & flagAccessStale == 0 && s.accessCallbacks == nil
+
 //@ func (*Subscription).CanGet
 //@   requires s != nil && s.c != nil && predConnOK(s.c.(*wsConn))
 //@   resolves[C07] cb exactly-once
@@ -1363,6 +1386,8 @@ var _ rpc.Resources
 //@   requires t != nil ==> rescache.predThrottleInv(t)
 //@   assumes predCountsOK()
 //@   ensures[C04,C05,C06] s.access == nil && s.flags & flagReaccess == 0
+// (an access request already in flight was made before this trigger: its answer is stale)
+//@   ensures[C05,C06] old(s.flags & flagAccessCalled) != 0 ==> s.flags & flagAccessStale != 0
 //@   ensures[C06] old(s.direct) == 0 ==> s.queueFlag == old(s.queueFlag) && s.accessCallbacks == old(s.accessCallbacks)
 //@   ensures[C06] predSubsStable()
 //@   ensures[C06] forall x *Subscription :: x != s ==> x.access == old(x.access) && x.flags == old(x.flags)
@@ -1564,7 +1589,8 @@ var _ rpc.Resources
 //@   requires t != nil ==> rescache.predThrottleInv(t)
 //@   assumes predCountsOK()
 //@   ensures[C06] old(s.state) == stateDisposed ==> s.access == old(s.access) && s.flags == old(s.flags) && s.queueFlag == old(s.queueFlag)
-//@   ensures[C06] old(s.state) != stateDisposed && old(s.queueFlag) != 0 ==> s.flags == old(s.flags) | flagReaccess && s.queueFlag == old(s.queueFlag)
+//@   ensures[C06] old(s.state) != stateDisposed && old(s.queueFlag) != 0 ==> s.queueFlag == old(s.queueFlag) &&
+//@       s.flags == old(s.flags) | flagReaccess | ite(old(s.flags & flagAccessCalled) != 0, flagAccessStale, 0)
 //@   ensures[C04,C05,C06] old(s.state) != stateDisposed ==> s.access == nil
 // (a check deferred from a system reset stays under that reset's throttle)
 //@   ensures[C19] old(s.state) != stateDisposed && old(s.queueFlag) != 0 && t != nil ==> s.reaccessThrottle == t
